@@ -82,6 +82,7 @@ def work(item):
             reorder_freq=int(app.solver.reorder_freq),
             displaced=moved,
             cache=bool(item.get('expect_cache')),
+            hashseed=os.environ.get('PYTHONHASHSEED'),
         )
         return dict(evaluations=1, distinct=[item['name']], state=state,
                     info=info, name=item['name'],
@@ -217,9 +218,13 @@ def run(tier):
     probs = PROBLEMS
     for pr in probs:
         for (nm, args, threads, klass, twin) in configs(tier, seed):
+            # every run is its own process with its own string-hash seed
+            # (a user's runs have random ones): nothing may depend on it
+            hs = 1 + (common.case_seed(PROP, seed, pr, nm) % 4000)
             items.append(dict(problem=pr, name='%s:%s' % (pr, nm), args=args,
                               threads=threads, klass=klass, twin=twin,
                               flavour='plain', timeout=1800,
+                              env={'PYTHONHASHSEED': str(hs)},
                               worker_key='%s:%s' % (pr, nm)))
     # several OpenMP threads under ThreadSanitizer
     ts = [('tank', 4), ('periodic', 3)] if tier == 'quick' else \
@@ -251,7 +256,8 @@ def run(tier):
     v = common.Verdict(PROP)
     cov = harness.san_violations(m, v)
     compared = dict(bit=0, tol=0, twin=0)
-    observed = dict(nnps=set(), threads=set(), reordered_runs=0,
+    observed = dict(nnps=set(), threads=set(), hashseeds=set(),
+                    reordered_runs=0,
                     openmp_runs=0, cached_runs=0)
     for it in items:
         nm = it['name']
@@ -267,6 +273,7 @@ def run(tier):
         info = infos[nm]
         observed['nnps'].add(info['nnps'])
         observed['threads'].add(info['threads'])
+        observed['hashseeds'].add(info.get('hashseed'))
         observed['openmp_runs'] += int(info['openmp'])
         observed['reordered_runs'] += int(info['displaced'] > 0)
         # the option must have had its effect, else the run shows nothing
@@ -337,6 +344,9 @@ def run(tier):
             len(observed['nnps']), sorted(observed['nnps'])))
     if observed['reordered_runs'] < 2:
         v.inconclusive_because('re-ordering never displaced a particle')
+    if len(observed['hashseeds']) < 10:
+        v.inconclusive_because('only %d distinct PYTHONHASHSEED values' %
+                               len(observed['hashseeds']))
     if len(observed['threads']) < 3:
         v.inconclusive_because('thread counts seen: %s' % sorted(
             observed['threads']))
@@ -345,6 +355,7 @@ def run(tier):
                compared_twins=compared['twin'],
                nnps_classes=sorted(observed['nnps']),
                thread_counts=sorted(observed['threads']),
+               distinct_hash_seeds=len(observed['hashseeds']),
                runs_with_openmp=observed['openmp_runs'],
                runs_where_reordering_displaced_rows=observed[
                    'reordered_runs'])
@@ -361,7 +372,8 @@ def run(tier):
              'particles matched by unique id), and twins with identical '
              'options (bit-identical); plus OpenMP runs with 2-8 threads '
              'under ThreadSanitizer with the generated module instrumented',
-        assumptions=['fixed time step (adaptive stepping off) so that all '
+        assumptions=['every run is a fresh process with its own PYTHONHASHSEED',
+                     'fixed time step (adaptive stepping off) so that all '
                      'configurations take the same steps',
                      'divergence over 20-25 steps from summation order '
                      'stays below 1e-7 relative; a lost or extra neighbour '
